@@ -83,6 +83,12 @@ def plan(tier):
     for gap in ((1, 70) if tier == "quick" else (1, 2, 64, 65, 70)):
         emit("c30_grow_words_gap%d" % gap, 64 + gap + 70 + 8, "dense_grow_words(%d);" % gap,
              {"state": "Dense, 64 packed rows (one full bitmap word)", "written_row": "63+%d" % gap}, "grow_words")
+    # (the ColumnStore-level `store_step` harness exists in c30.rs but gives no verdict in 15 min: String keys through
+    #  the index map plus three set_property calls; it is not scheduled)
+    emit("c30_spill_min_bool", 9, "column_spill(0, 1, 0, false);",
+         {"state": "Column::Int(Dense), base 0, span 1", "written_row": "slot0 (overwrites a present or absent row)", "value_type": "Boolean"}, "column_spill")
+    emit("c30_spill_min_float", 9, "column_spill(0, 1, 1, true);",
+         {"state": "Column::Int(Dense), base 0, span 1", "written_row": "just above", "value_type": "Float"}, "column_spill")
     sparse = [([], 5), ([5], 5), ([5], 9), ([5, 6], 7), ([5, 6, 7], 8), ([5, 6, 7], 6), ([5, 6, 9], 1 << 50), ([10, 11, 12], 9)]
     if tier != "quick":
         sparse += [([5, 7, 9], 11), ([5, 6, 7], 4), ([0, 1, 2], 3)]
@@ -93,7 +99,8 @@ def plan(tier):
              "sparse_set")
     p.gen["c30_gen.rs"] = "".join(gen)
     p.functions = ["ColumnData::{new,get,has,len,set,remove,rebase,demote_to_sparse,maybe_promote,for_each}", "dense_is_smaller",
-                   "bit/set_bit/clear_bit", "Column::{set,get,has,promote_to_other}"]
+                   "bit/set_bit/clear_bit", "Column::{set,get,has,remove,promote_to_other}",
+                   "ColumnStore::{set_property,remove_property,clear_row,get_property,get_property_keys}"]
     p.assumptions = [
         "slice crate: current columnar.rs + property.rs + types.rs; `use rustc_hash::FxHashMap` redirected to shims/vkcoll "
         "(a finite map with unique keys, 4 slots); PROMOTE_MIN_ENTRIES lowered to 4 in the scratch copy (the 1024-entry "
@@ -106,7 +113,7 @@ def plan(tier):
         "fmt stubbed; drop glue skipped",
     ]
     p.bound = "Dense: base in %s, span in %s, every position class of the written row; Sparse: <= 3 entries; one step" % (list(bases), list(spans))
-    p.not_covered = ("spans above 3 except the packed 64-row growth shapes, String columns, ColumnStore key index and clear_row, "
+    p.not_covered = ("spans above 3 except the packed 64-row growth shapes, String columns, ColumnStore beyond two keys and two rows, "
                      "the real 1024-entry promotion threshold, FxHashMap itself")
     p.per_harness_timeout = 900 if tier == 'quick' else 1500
     p.total_timeout = 2700 if tier == 'quick' else 7000
